@@ -139,12 +139,16 @@ def handleMem (j : Json) : Except String Json := do
     ("act", ofBools (activeList d x))])
   return Json.mkObj [("ok", true), ("wf", d.wfAll), ("unconstrained", d.unconstrained), ("res", Json.arr res.toArray)]
 
+/-- a raw ConfigSpace sample: one entry per hyperparameter, `null` = absent (inactive) -/
+def jSample (j : Json) : Except String (List (Option Val)) :=
+  jList (fun v => match v with
+      | .null => pure none
+      | w => do return some (← jVal w)) j
+
 /-- `fill`: ConfigSpace samples (absent = `null`) completed with the canonical inactive values -/
 def handleFill (j : Json) : Except String Json := do
   let d ← jDecl (← field j "decl")
-  let samples ← jList (jList (fun v => match v with
-      | .null => pure none
-      | w => do return some (← jVal w))) (← field j "samples")
+  let samples ← jList jSample (← field j "samples")
   let res := samples.map (fun s =>
     match fillInactive d.hps s with
     | none => Json.null
@@ -496,6 +500,18 @@ def exactTable (tbl : List (Rat × Rat)) (q : Rat) : Rat :=
   | some kv => kv.2
   | none => q
 
+/-- did the model's child go through the fallback branch (all 100 mutation trials forbidden)? -/
+def tookFallback (ne : NumEnv) (d : Decl) (st : DH.RegEvo.St) (e : DH.RegEvo.ChildEnv) : Bool :=
+  match DH.RegEvo.parentOf st e.idxs with
+  | none => false
+  | some parent =>
+    match deactivateCS ne d parent with
+    | .error _ => false
+    | .ok p0 =>
+      match DH.RegEvo.mutate ne d parent (activeList d p0) 100 e.attempts with
+      | .ok none => true
+      | _ => false
+
 def handleRegevo (j : Json) : Except String Json := do
   let d ← jDecl (← field j "decl")
   let popSize ← jNat (← field j "popSize")
@@ -507,6 +523,7 @@ def handleRegevo (j : Json) : Except String Json := do
   let mut mismatch : Option String := none
   let mut replayed : Nat := 0
   let mut phases : List String := []
+  let mut fallbacks : Nat := 0
   for oj in opsJ.toList do
     if mismatch.isSome then break
     let kind ← (← field oj "op").getStr?
@@ -520,7 +537,7 @@ def handleRegevo (j : Json) : Except String Json := do
       st := DH.RegEvo.tell st results
     else
       let n ← jNat (← field oj "n")
-      let fresh ← jList jConfig (fieldD oj "fresh" (Json.arr #[]))
+      let fresh ← jList jSample (fieldD oj "fresh" (Json.arr #[]))
       let X ← jList jConfig (← field oj "X")
       let envs ← jList (fun c => do
           let idxs ← jList jNat (← field c "idxs")
@@ -531,10 +548,12 @@ def handleRegevo (j : Json) : Except String Json := do
               | _ => throw "bad attempt") (← field c "attempts")
           let fr ← match c.getObjVal? "fresh" with
             | .ok (.null) => pure []
-            | .ok f => jConfig f
+            | .ok f => jSample f
             | .error _ => pure []
           return ({ idxs, attempts, fresh := fr } : DH.RegEvo.ChildEnv)) (fieldD oj "children" (Json.arr #[]))
       phases := phases ++ [if st.pop.length < st.popSize then "random" else "evolution"]
+      if !(st.pop.length < st.popSize) then
+        fallbacks := fallbacks + (envs.filter (tookFallback ne d st)).length
       match DH.RegEvo.ask ne d st n fresh envs with
       | .error e => mismatch := some s!"ask({n}): model raises {reprStr e}"
       | .ok Xm =>
@@ -543,7 +562,8 @@ def handleRegevo (j : Json) : Except String Json := do
         else replayed := replayed + 1
   return Json.mkObj [("ok", true),
     ("mismatch", match mismatch with | some m => Json.str m | none => Json.null),
-    ("replayed", replayed), ("phases", Json.arr (phases.map Json.str).toArray)]
+    ("replayed", replayed), ("phases", Json.arr (phases.map Json.str).toArray),
+    ("fallbacks", fallbacks)]
 
 /-- the request handler shared by `Drivers/C02.lean` and `Drivers/C08.lean` -/
 def handle (j : Json) : Except String Json := do
